@@ -275,6 +275,16 @@ def judge_latex(ctx, F, mem, text, path, form):
     if isinstance(res, c12_latex.Rejection):
         ctx.violation(who + "unreadable:" + res.kind, "%s: %r" % (path, res), text=text[:1500])
         return False
+    if form == "document":
+        # the sentence that introduces the formula declares its size
+        import re as _re
+        m_ = _re.search(r"with (\d+) variables and (?:and )?(\d+) (clauses|constraints)", text)
+        if m_:
+            ctx.count("latex_documents_declaring_their_size")
+            if int(m_.group(1)) != mem.n or int(m_.group(2)) != len(mem.rows):
+                ctx.violation(who + "declared-size-differs", "%s: the document says %r, the formula has %d variables and %d rows"
+                              % (path, m_.group(0), mem.n, len(mem.rows)), text=text[:1200])
+                return False
     if len(res.blocks) > 1:
         ctx.count("page_splits_seen", len(res.blocks) - 1)
         if len(res.blocks) >= 3:
